@@ -13,13 +13,15 @@ for d in /verif/seeded/*/; do
   [ -f $d/demo.sh ] && cp $d/demo.sh $WT/demo.sh && chmod +x $WT/demo.sh
   for sub in $d/*/; do [ -d "$sub" ] && cp -r "$sub" $WT/; done
   cp $d/seeded_demo.rs strum_tests/tests/seeded_demo.rs
-  cargo test -p strum_tests --offline $FEAT --test seeded_demo > /tmp/sv_${ID}_clean.log 2>&1; CLEAN=$?
+  # (a seed that needs another build configuration — release profile, another feature set, an extra crate — brings its own demo.sh)
+  DEMO="cargo test -p strum_tests --offline $FEAT --test seeded_demo"; [ -f $d/demo.sh ] && DEMO="bash ./demo.sh"
+  $DEMO > /tmp/sv_${ID}_clean.log 2>&1; CLEAN=$?
   rm -f strum_tests/tests/seeded_demo.rs
   git apply $d/patch.diff || { echo "$ID: patch does not apply"; continue; }
   cargo test --workspace --offline > /tmp/sv_${ID}_suite.log 2>&1; SUITE=$?
   if [ -n "$FEAT" ]; then cargo test -p strum_tests --offline $FEAT > /tmp/sv_${ID}_suite_phf.log 2>&1; S2=$?; [ $S2 -ne 0 ] && SUITE=$S2; fi
   cp $d/seeded_demo.rs strum_tests/tests/seeded_demo.rs
-  cargo test -p strum_tests --offline $FEAT --test seeded_demo > /tmp/sv_${ID}_mut.log 2>&1; MUT=$?
+  $DEMO > /tmp/sv_${ID}_mut.log 2>&1; MUT=$?
   echo "$CLEAN $SUITE $MUT" > $d/.verify
   echo "$ID: demo-without-change rc=$CLEAN (want 0); suite-with-change rc=$SUITE (want 0); demo-with-change rc=$MUT (want !=0)"
 done
